@@ -1,10 +1,11 @@
 //! ternary eqrel, serial: `EqRel2IndCommonWithReverse<u32, u32>` through the types the provider macros select.
-//! The index on column [2] alone names a type that does not exist (`ToEqRel2Ind2`), so it cannot be
-//! instantiated here either (see gen/props/c10.py, finding `ternary_index_2_missing`).
+//! (The index on column [2] alone named a type that did not exist before /repo commit 0f251c7; a source tree
+//! without that repair does not build this harness, which the check reports as a violation.)
 //! dump layout per version, K = nkeys + 1 masks per set (full tuples (k, x, y): mask k, bit x*(dom+1)+y):
 //!   [ f_get[K] f_badcnt  f_ck[K]  f_all[K] dups
 //!     i0_some       i0_get[K] dups  i0_all[K] dups          key (k)      value (x, y)
 //!     i1_some       i1_get[K] dups  i1_all[K] dups          key (x)      value (k, y)
+//!     i2_some       i2_get[K] dups  i2_all[K] dups          key (y)      value (k, x)
 //!     i01_some[K]   i01_get[K] dups i01_all[K] dups         key (k, x)   value (y)
 //!     i02_some[K]   i02_get[K] dups i02_all[K] dups         key (k, y)   value (x)
 //!     i12_some      i12_get[K] dups i12_all[K] dups         key (x, y)   value (k)
@@ -21,6 +22,7 @@ type Full =
    eqrel::rel_full_ind!(r, (u32, u32, u32), [[], [0], [0, 1], [0, 1, 2], [0, 2], [1], [1, 2]], ser, (), (u32, u32, u32), ());
 type I0 = eqrel::rel_ind!(r, (u32, u32, u32), [[]], ser, (), [0], (u32,), (u32, u32));
 type I1 = eqrel::rel_ind!(r, (u32, u32, u32), [[]], ser, (), [1], (u32,), (u32, u32));
+type I2 = eqrel::rel_ind!(r, (u32, u32, u32), [[]], ser, (), [2], (u32,), (u32, u32));
 type I01 = eqrel::rel_ind!(r, (u32, u32, u32), [[]], ser, (), [0, 1], (u32, u32), (u32,));
 type I02 = eqrel::rel_ind!(r, (u32, u32, u32), [[]], ser, (), [0, 2], (u32, u32), (u32,));
 type I12 = eqrel::rel_ind!(r, (u32, u32, u32), [[]], ser, (), [1, 2], (u32, u32), (u32,));
@@ -32,6 +34,7 @@ struct Ver {
    f: Full,
    i0: I0,
    i1: I1,
+   i2: I2,
    i01: I01,
    i02: I02,
    i12: I12,
@@ -118,6 +121,27 @@ fn dump(v: &Ver, dom: u32, nk: u32) -> Vec<i64> {
       for (key, vals) in ind.iter_all() {
          for (k, y) in vals {
             all.add(*k, key.0, *y);
+         }
+      }
+      out.push(some as i64);
+      get.out(out);
+      all.out(out);
+   });
+   view(2 * k1 + 3, &mut res, |out| {
+      let ind = v.i2.to_rel_index(&v.c);
+      let (mut get, mut all) = (Acc::new(k1, d1), Acc::new(k1, d1));
+      let mut some = 0u64;
+      for y in 0..d1 {
+         if let Some(it) = ind.index_get(&(y,)) {
+            some |= 1 << y;
+            for (k, x) in it {
+               get.add(*k, *x, y);
+            }
+         }
+      }
+      for (key, vals) in ind.iter_all() {
+         for (k, x) in vals {
+            all.add(*k, *x, key.0);
          }
       }
       out.push(some as i64);
@@ -224,13 +248,14 @@ struct St {
 
 macro_rules! on_indices {
    ($s: ident, $f: path) => {
-      // order of generated code: indices sorted by name: _0, _0_1, _0_1_2, _0_2, _1, _1_2, _none
+      // order of generated code: indices sorted by name: _0, _0_1, _0_1_2, _0_2, _1, _1_2, _2, _none
       $f(&mut $s.new.i0.to_rel_index_write(&mut $s.new.c), &mut $s.delta.i0.to_rel_index_write(&mut $s.delta.c), &mut $s.total.i0.to_rel_index_write(&mut $s.total.c));
       $f(&mut $s.new.i01.to_rel_index_write(&mut $s.new.c), &mut $s.delta.i01.to_rel_index_write(&mut $s.delta.c), &mut $s.total.i01.to_rel_index_write(&mut $s.total.c));
       $f(&mut $s.new.f.to_rel_index_write(&mut $s.new.c), &mut $s.delta.f.to_rel_index_write(&mut $s.delta.c), &mut $s.total.f.to_rel_index_write(&mut $s.total.c));
       $f(&mut $s.new.i02.to_rel_index_write(&mut $s.new.c), &mut $s.delta.i02.to_rel_index_write(&mut $s.delta.c), &mut $s.total.i02.to_rel_index_write(&mut $s.total.c));
       $f(&mut $s.new.i1.to_rel_index_write(&mut $s.new.c), &mut $s.delta.i1.to_rel_index_write(&mut $s.delta.c), &mut $s.total.i1.to_rel_index_write(&mut $s.total.c));
       $f(&mut $s.new.i12.to_rel_index_write(&mut $s.new.c), &mut $s.delta.i12.to_rel_index_write(&mut $s.delta.c), &mut $s.total.i12.to_rel_index_write(&mut $s.total.c));
+      $f(&mut $s.new.i2.to_rel_index_write(&mut $s.new.c), &mut $s.delta.i2.to_rel_index_write(&mut $s.delta.c), &mut $s.total.i2.to_rel_index_write(&mut $s.total.c));
       $f(&mut $s.new.n.to_rel_index_write(&mut $s.new.c), &mut $s.delta.n.to_rel_index_write(&mut $s.delta.c), &mut $s.total.n.to_rel_index_write(&mut $s.total.c));
    };
 }
